@@ -22,11 +22,21 @@ Complete(t, x, sgn) ==
   LET n == Batch[t].n  m == Batch[t].m  A == Batch[t].A  b == Batch[t].b  c == Batch[t].c  cv == Batch[t].cv
       base == SumSeq(LAMBDA j : sgn * c[j] * x[j], n)
   IN IF cv = 0 THEN (IF \A i \in 1..m : SumSeq(LAMBDA j : A[i][j] * x[j], n) <= b[i] THEN <<base, 1>> ELSE <<0, 0>>)
-     ELSE LET A1 == [i \in 1..m |-> <<A[i][cv]>>]
-              b1 == [i \in 1..m |-> b[i] - SumSeq(LAMBDA j : A[i][j] * x[j], n)]
-              c1 == <<sgn * c[cv]>>
-          IN IF LpStatus(A1, b1, c1, m, 1) # "OPTIMAL" THEN <<0, 0>>
-             ELSE LET v == MinObj(A1, b1, c1, m, 1) IN <<v[1] + base * v[2], v[2]>>
+     ELSE \* one continuous variable y >= 0: rows a_i y <= r_i give an interval [lo, hi] of rationals; optimum at an end point
+          LET a(i) == A[i][cv]
+              r(i) == b[i] - SumSeq(LAMBDA j : A[i][j] * x[j], n)
+              rowsP == {i \in 1..m : a(i) > 0}      \* upper bounds r/a
+              rowsN == {i \in 1..m : a(i) < 0}      \* lower bounds r/a (dividing by a negative number flips the sense)
+              okZ == \A i \in 1..m : a(i) = 0 => r(i) >= 0
+              LeqQ(p, q) == p[1] * q[2] <= q[1] * p[2]           \* rationals with positive denominators
+              ups == {<<r(i), a(i)>> : i \in rowsP}
+              los == {<<-r(i), -a(i)>> : i \in rowsN} \cup {<<0, 1>>}
+              hi == IF ups = {} THEN <<1000000, 1>> ELSE CHOOSE u \in ups : \A w \in ups : LeqQ(u, w)
+              lo == CHOOSE u \in los : \A w \in los : LeqQ(w, u)
+              cc == sgn * c[cv]
+              y == IF cc >= 0 THEN lo ELSE hi
+          IN IF ~okZ \/ ~LeqQ(lo, hi) THEN <<0, 0>>
+             ELSE <<cc * y[1] + base * y[2], y[2]>>
 Best(t, sgn) == LET vals == {Complete(t, x, sgn) : x \in IntPoints(t)} \ {<<0, 0>>}
                 IN IF vals = {} THEN <<0, 0>> ELSE CHOOSE v \in vals : \A w \in vals : ~Less(w, v)
 Init == /\ tid \in 1..Len(Batch) /\ l = 1 /\ ok = TRUE /\ why = ""
